@@ -118,8 +118,10 @@ def tlb_nodes(c):
     n = len(c["pks"])
     dag = []
     keys = [format(i, "016b") for i in range(n)]
-    vals = {k: ("01010011" + format(0x8e81278a, "032b") + format(int(pk, 16), "0256b") + format(w, "064b"), [])
-            for k, pk, w in zip(keys, c["pks"], c["ws"])}
+    # every other entry in the validator_addr#73 form (public_key weight adnl_addr:bits256), as in real config params 32/34
+    vals = {k: (("01110011" if i % 2 else "01010011") + format(0x8e81278a, "032b") + format(int(pk, 16), "0256b") + format(w, "064b")
+                + (format(int(hashlib.sha256(pk.encode()).hexdigest(), 16), "0256b") if i % 2 else ""), [])
+            for i, (k, pk, w) in enumerate(zip(keys, c["pks"], c["ws"]))}
     hm.build_any_tree(random.Random(1), keys, vals, 16, dag, canonical=True)
     head = format(0x12, "08b") + format(1, "032b") + format(2, "032b") + format(n, "016b") + format(max(1, n // 2), "016b")
     head += format(sum(c["ws"]) & (2 ** 64 - 1), "064b") + "1"
